@@ -2,7 +2,8 @@
 //! abstract operations over small integer ids; see DESIGN.md appendix A and coq/theories/Tower.v.
 use std::collections::HashMap;
 use std::path::PathBuf;
-use std::sync::{Arc, Condvar, Mutex};
+use std::sync::Arc;
+use teos::verif_sync::{Condvar, Mutex};
 
 use bitcoin::block::Block;
 use bitcoin::consensus;
@@ -135,12 +136,17 @@ impl World {
         let node = SimNode::new();
         let db_path = dir.join("teos_db.sql3");
         let dbm = Arc::new(Mutex::new(DBM::new(db_path.clone()).unwrap()));
-        let mut skb = [0x22u8; 32];
-        skb[0] = 1;
+        // (a key whose hex form is all decimal digits would be mangled by the INT affinity of keys.key)
+        let mut skb = [0xabu8; 32];
+        skb[0] = 0x1c;
         let tower_sk = SecretKey::from_slice(&skb).unwrap();
         let tower_pk = PublicKey::from_secret_key(&Secp256k1::new(), &tower_sk);
         let chain: Vec<(u64, Block)> = init_chain.to_vec();
         let height = (chain.len() - 1) as u32;
+        // as teosd does on a fresh data directory: persist the tower key
+        if dbm.lock().unwrap().load_tower_key().is_none() {
+            dbm.lock().unwrap().store_tower_key(&tower_sk).unwrap();
+        }
         let (gatekeeper, watcher, responder, api, reachable) =
             Self::build(cfg, &dbm, &node, &chain, height, tower_sk, tower_pk);
         let rt = tokio::runtime::Builder::new_current_thread().enable_all().build().unwrap();
@@ -219,6 +225,44 @@ impl World {
 
     pub fn height(&self) -> u32 {
         (self.chain.len() - 1) as u32
+    }
+
+    /// Crash + restart: every in-memory object is dropped and rebuilt from the database file the way
+    /// teosd's main() does (tower key from the keys table, components on the last blocks below `tip`).
+    /// `last_blocks` = the blocks of the node's chain ending at the bootstrap tip (oldest first),
+    /// `height` = the tip's height. Returns false if the bootstrap panicked or the tower id changed.
+    pub fn restart(&mut self, last_blocks: &[(u64, Block)], height: u32) -> bool {
+        let db_path = self.dir.join("teos_db.sql3");
+        let r = std::panic::catch_unwind(std::panic::AssertUnwindSafe(|| {
+            let dbm = Arc::new(Mutex::new(DBM::new(db_path.clone()).unwrap()));
+            let (sk, pk) = {
+                let locked = dbm.lock().unwrap();
+                match locked.load_tower_key() {
+                    Some(sk) => (sk, PublicKey::from_secret_key(&Secp256k1::new(), &sk)),
+                    None => {
+                        locked.store_tower_key(&self.tower_sk).unwrap();
+                        (self.tower_sk, PublicKey::from_secret_key(&Secp256k1::new(), &self.tower_sk))
+                    }
+                }
+            };
+            let built = Self::build(self.cfg, &dbm, &self.node, last_blocks, height, sk, pk);
+            (dbm, built, pk)
+        }));
+        match r {
+            Ok((dbm, (gatekeeper, watcher, responder, api, reachable), pk)) => {
+                let same_id = TowerId(pk) == self.tower_id;
+                self.dbm = dbm;
+                self.gatekeeper = gatekeeper;
+                self.watcher = watcher;
+                self.responder = responder;
+                self.api = api;
+                self.reachable = reachable;
+                self.reader = Connection::open_with_flags(&db_path, OpenFlags::SQLITE_OPEN_READ_ONLY).unwrap();
+                self.panicked = false;
+                same_id
+            }
+            Err(_) => false,
+        }
     }
 
     pub fn user(&mut self, uid: u64) -> (SecretKey, PublicKey) {
@@ -325,27 +369,6 @@ impl World {
         m
     }
 
-    fn call_listeners_connected(&self, block: &Block, height: u32) {
-        let txdata: Vec<(usize, &Transaction)> = block.txdata.iter().enumerate().collect();
-        for w in &self.listener_order {
-            match w {
-                0 => self.gatekeeper.filtered_block_connected(&block.header, &txdata, height),
-                1 => self.watcher.filtered_block_connected(&block.header, &txdata, height),
-                _ => self.responder.filtered_block_connected(&block.header, &txdata, height),
-            }
-        }
-    }
-
-    fn call_listeners_disconnected(&self, block: &Block, height: u32) {
-        for w in &self.listener_order {
-            match w {
-                0 => self.gatekeeper.block_disconnected(&block.header, height),
-                1 => self.watcher.block_disconnected(&block.header, height),
-                _ => self.responder.block_disconnected(&block.header, height),
-            }
-        }
-    }
-
     /// Executes one operation on the real tower; appends the canonical result tokens to `line`.
     /// Returns false when the real code panicked (the history ends there).
     pub fn exec(&mut self, op: &Op, script: &Script, line: &mut Line) -> bool {
@@ -369,35 +392,32 @@ impl World {
     }
 
     fn exec_inner(&mut self, op: &Op) -> Vec<String> {
-        let mut out: Vec<String> = Vec::new();
+        let (call, meta) = self.prepare(op);
+        let reply = self.runner().run(call);
+        self.render(&meta, reply)
+    }
+
+    /// What is needed to run calls on the real components from any thread.
+    pub fn runner(&self) -> Runner {
+        Runner {
+            api: self.api.clone(),
+            gatekeeper: self.gatekeeper.clone(),
+            watcher: self.watcher.clone(),
+            responder: self.responder.clone(),
+            order: self.listener_order.clone(),
+        }
+    }
+
+    /// Builds the concrete request / block for an abstract operation (no effect on the tower).
+    pub fn prepare(&mut self, op: &Op) -> (Call, Meta) {
         match op {
             Op::Register(uid) => {
                 let (_, pk) = self.user(*uid);
                 let req = common_msgs::RegisterRequest { user_id: pk.serialize().to_vec() };
-                match self.rt.block_on(self.api.register(Request::new(req))) {
-                    Ok(resp) => {
-                        let r = resp.into_inner();
-                        let receipt = RegistrationReceipt::with_signature(
-                            UserId(pk),
-                            r.available_slots,
-                            r.subscription_start,
-                            r.subscription_expiry,
-                            r.subscription_signature.clone(),
-                        );
-                        let ok = receipt.verify(&self.tower_id) && r.user_id == pk.serialize().to_vec();
-                        out.push("RO".into());
-                        out.push(r.available_slots.to_string());
-                        out.push(r.subscription_start.to_string());
-                        out.push(r.subscription_expiry.to_string());
-                        out.push((ok as u8).to_string());
-                    }
-                    Err(st) => {
-                        out.push(if st.code() == Code::ResourceExhausted { "RM".into() } else { format!("R?{}", hex_status(st.code())) });
-                    }
-                }
+                (Call::Register(req), Meta::Register(pk))
             }
-            Op::Add { signer: _, class, loc, blob, delay } => {
-                let uid = if let Op::Add { signer, .. } = op { *signer } else { -1 };
+            Op::Add { signer, class, loc, blob, delay } => {
+                let uid = *signer;
                 let locator = self.locator(*loc);
                 let bytes = self.blobs[*blob].0.clone();
                 // the message this request type defines, built independently of Appointment::to_vec
@@ -416,20 +436,7 @@ impl World {
                     }),
                     signature: sig.clone(),
                 };
-                match self.rt.block_on(self.api.add_appointment(Request::new(req))) {
-                    Ok(resp) => {
-                        let r = resp.into_inner();
-                        // the client-side verifier: the receipt binds the user's own signature and the start block
-                        let receipt = AppointmentReceipt::with_signature(sig, r.start_block, r.signature.clone());
-                        let ok = receipt.verify(&self.tower_id) && r.locator == locator.to_vec();
-                        out.push("AO".into());
-                        out.push(r.start_block.to_string());
-                        out.push(if ok { sid.to_string() } else { "-1".into() });
-                        out.push(r.available_slots.to_string());
-                        out.push(r.subscription_expiry.to_string());
-                    }
-                    Err(st) => out.extend(add_err_tokens(&st)),
-                }
+                (Call::Add(req), Meta::Add { locator: locator.to_vec(), sig, sid })
             }
             Op::Get { signer, class, loc } => {
                 let locator = self.locator(*loc);
@@ -437,74 +444,113 @@ impl World {
                 let signing_uid = if *signer >= 0 { *signer as u64 } else { 0 };
                 let sig = self.make_sig(signing_uid, *class, msg.as_bytes(), b"get subscription info");
                 let req = common_msgs::GetAppointmentRequest { locator: locator.to_vec(), signature: sig };
-                match self.rt.block_on(self.api.get_appointment(Request::new(req))) {
-                    Ok(resp) => {
-                        let r = resp.into_inner();
-                        match r.appointment_data.and_then(|d| d.appointment_data) {
-                            Some(common_msgs::appointment_data::AppointmentData::Appointment(a)) => {
-                                out.push("GA".into());
-                                out.push(self.id_of_locator.get(&a.locator).map(|x| *x as i64).unwrap_or(-2).to_string());
-                                out.extend(self.blob_tokens(&a.encrypted_blob));
-                                out.push(a.to_self_delay.to_string());
-                                out.push(r.status.to_string());
-                            }
-                            Some(common_msgs::appointment_data::AppointmentData::Tracker(t)) => {
-                                out.push("GT".into());
-                                out.push(self.txid_bytes_id(&t.dispute_txid).to_string());
-                                out.push(self.txid_bytes_id(&t.penalty_txid).to_string());
-                                // the raw penalty must be the penalty whose id is reported
-                                let raw_ok = consensus::deserialize::<Transaction>(&t.penalty_rawtx)
-                                    .map(|tx| tx.compute_txid().to_byte_array().to_vec() == t.penalty_txid)
-                                    .unwrap_or(false);
-                                out.push((raw_ok as u8).to_string());
-                                out.push(r.status.to_string());
-                            }
-                            None => out.push("G?empty".into()),
-                        }
-                    }
-                    Err(st) => out.extend(get_err_tokens(&st, "G")),
-                }
+                (Call::Get(req), Meta::Get)
             }
             Op::GetSub { signer, class } => {
                 let signing_uid = if *signer >= 0 { *signer as u64 } else { 0 };
                 let sig = self.make_sig(signing_uid, *class, b"get subscription info", b"get appointment 00");
                 let req = common_msgs::GetSubscriptionInfoRequest { signature: sig };
-                match self.rt.block_on(self.api.get_subscription_info(Request::new(req))) {
-                    Ok(resp) => {
-                        let r = resp.into_inner();
-                        out.push("SO".into());
-                        out.push(r.available_slots.to_string());
-                        out.push(r.subscription_expiry.to_string());
-                        let mut locs: Vec<i64> = r
-                            .locators
-                            .iter()
-                            .map(|l| self.id_of_locator.get(l).map(|x| *x as i64).unwrap_or(-2))
-                            .collect();
-                        locs.sort();
-                        out.push(locs.len().to_string());
-                        out.extend(locs.iter().map(|l| l.to_string()));
-                    }
-                    Err(st) => out.extend(get_err_tokens(&st, "S")),
-                }
+                (Call::GetSub(req), Meta::GetSub)
             }
             Op::Connect { hash, txs } => {
                 let real: Vec<Transaction> = txs.iter().map(|t| self.tx(*t)).collect();
                 let prev = self.chain.last().unwrap().1.header.block_hash();
                 let height = self.height() + 1;
                 let block = make_block(prev, 1_700_000_000 + height, *hash as u32, real);
-                self.call_listeners_connected(&block, height);
-                self.chain.push((*hash, block));
-                out.push("B".into());
+                self.chain.push((*hash, block.clone()));
+                (Call::Connect(block, height), Meta::Block)
             }
             Op::Disconnect => {
                 if self.chain.len() > 1 {
                     let height = self.height();
-                    let (_, block) = self.chain.last().unwrap().clone();
-                    self.call_listeners_disconnected(&block, height);
-                    self.chain.pop();
+                    let (_, block) = self.chain.pop().unwrap();
+                    (Call::Disconnect(block, height), Meta::Block)
+                } else {
+                    (Call::Nop, Meta::Block)
                 }
-                out.push("B".into());
             }
+        }
+    }
+
+    /// Canonical tokens of a reply.
+    pub fn render(&mut self, meta: &Meta, reply: Reply) -> Vec<String> {
+        let mut out: Vec<String> = Vec::new();
+        match (meta, reply) {
+            (Meta::Register(pk), Reply::Register(r)) => match r {
+                Ok(r) => {
+                    let receipt = RegistrationReceipt::with_signature(
+                        UserId(*pk),
+                        r.available_slots,
+                        r.subscription_start,
+                        r.subscription_expiry,
+                        r.subscription_signature.clone(),
+                    );
+                    let ok = receipt.verify(&self.tower_id) && r.user_id == pk.serialize().to_vec();
+                    out.push("RO".into());
+                    out.push(r.available_slots.to_string());
+                    out.push(r.subscription_start.to_string());
+                    out.push(r.subscription_expiry.to_string());
+                    out.push((ok as u8).to_string());
+                }
+                Err(st) => {
+                    out.push(if st.code() == Code::ResourceExhausted { "RM".into() } else { format!("R?{}", hex_status(st.code())) });
+                }
+            },
+            (Meta::Add { locator, sig, sid }, Reply::Add(r)) => match r {
+                Ok(r) => {
+                    // the client-side verifier: the receipt binds the user's own signature and the start block
+                    let receipt = AppointmentReceipt::with_signature(sig.clone(), r.start_block, r.signature.clone());
+                    let ok = receipt.verify(&self.tower_id) && &r.locator == locator;
+                    out.push("AO".into());
+                    out.push(r.start_block.to_string());
+                    out.push(if ok { sid.to_string() } else { "-1".into() });
+                    out.push(r.available_slots.to_string());
+                    out.push(r.subscription_expiry.to_string());
+                }
+                Err(st) => out.extend(add_err_tokens(&st)),
+            },
+            (Meta::Get, Reply::Get(r)) => match r {
+                Ok(r) => match r.appointment_data.and_then(|d| d.appointment_data) {
+                    Some(common_msgs::appointment_data::AppointmentData::Appointment(a)) => {
+                        out.push("GA".into());
+                        out.push(self.id_of_locator.get(&a.locator).map(|x| *x as i64).unwrap_or(-2).to_string());
+                        out.extend(self.blob_tokens(&a.encrypted_blob));
+                        out.push(a.to_self_delay.to_string());
+                        out.push(r.status.to_string());
+                    }
+                    Some(common_msgs::appointment_data::AppointmentData::Tracker(t)) => {
+                        out.push("GT".into());
+                        out.push(self.txid_bytes_id(&t.dispute_txid).to_string());
+                        out.push(self.txid_bytes_id(&t.penalty_txid).to_string());
+                        // the raw penalty must be the penalty whose id is reported
+                        let raw_ok = consensus::deserialize::<Transaction>(&t.penalty_rawtx)
+                            .map(|tx| tx.compute_txid().to_byte_array().to_vec() == t.penalty_txid)
+                            .unwrap_or(false);
+                        out.push((raw_ok as u8).to_string());
+                        out.push(r.status.to_string());
+                    }
+                    None => out.push("G?empty".into()),
+                },
+                Err(st) => out.extend(get_err_tokens(&st, "G")),
+            },
+            (Meta::GetSub, Reply::GetSub(r)) => match r {
+                Ok(r) => {
+                    out.push("SO".into());
+                    out.push(r.available_slots.to_string());
+                    out.push(r.subscription_expiry.to_string());
+                    let mut locs: Vec<i64> = r
+                        .locators
+                        .iter()
+                        .map(|l| self.id_of_locator.get(l).map(|x| *x as i64).unwrap_or(-2))
+                        .collect();
+                    locs.sort();
+                    out.push(locs.len().to_string());
+                    out.extend(locs.iter().map(|l| l.to_string()));
+                }
+                Err(st) => out.extend(get_err_tokens(&st, "S")),
+            },
+            (Meta::Block, _) => out.push("B".into()),
+            _ => out.push("??".into()),
         }
         out
     }
@@ -616,7 +662,10 @@ impl World {
         for uid in ids {
             let (_, pk) = self.user(uid);
             let req = msgs::GetUserRequest { user_id: pk.serialize().to_vec() };
-            if let Ok(resp) = self.rt.block_on(self.api.get_user(Request::new(req))) {
+            let api = self.api.clone();
+            let rt = &self.rt;
+            let r = std::panic::catch_unwind(std::panic::AssertUnwindSafe(|| rt.block_on(api.get_user(Request::new(req)))));
+            if let Ok(Ok(resp)) = r {
                 let r = resp.into_inner();
                 mem.push((uid, r.available_slots, r.subscription_expiry));
             }
@@ -668,5 +717,80 @@ fn get_err_tokens(st: &tonic::Status, p: &str) -> Vec<String> {
         }
         Code::NotFound => vec![format!("{p}N")],
         c => vec![format!("{p}?{}", hex_status(c))],
+    }
+}
+
+/// A concrete call on the real tower.
+pub enum Call {
+    Register(common_msgs::RegisterRequest),
+    Add(common_msgs::AddAppointmentRequest),
+    Get(common_msgs::GetAppointmentRequest),
+    GetSub(common_msgs::GetSubscriptionInfoRequest),
+    Connect(Block, u32),
+    Disconnect(Block, u32),
+    Nop,
+}
+
+pub enum Reply {
+    Register(Result<common_msgs::RegisterResponse, tonic::Status>),
+    Add(Result<common_msgs::AddAppointmentResponse, tonic::Status>),
+    Get(Result<common_msgs::GetAppointmentResponse, tonic::Status>),
+    GetSub(Result<common_msgs::GetSubscriptionInfoResponse, tonic::Status>),
+    Block,
+}
+
+/// What `render` needs besides the reply.
+pub enum Meta {
+    Register(PublicKey),
+    Add { locator: Vec<u8>, sig: String, sid: u64 },
+    Get,
+    GetSub,
+    Block,
+}
+
+#[derive(Clone)]
+pub struct Runner {
+    pub api: Arc<InternalAPI>,
+    pub gatekeeper: Arc<Gatekeeper>,
+    pub watcher: Arc<Watcher>,
+    pub responder: Arc<Responder>,
+    pub order: Vec<u8>,
+}
+
+thread_local! {
+    static RT: tokio::runtime::Runtime = tokio::runtime::Builder::new_current_thread().enable_all().build().unwrap();
+}
+
+impl Runner {
+    /// Runs the call on the calling thread (may block inside the tower: locks, reachability wait).
+    pub fn run(&self, call: Call) -> Reply {
+        match call {
+            Call::Register(req) => Reply::Register(RT.with(|rt| rt.block_on(self.api.register(Request::new(req)))).map(|r| r.into_inner())),
+            Call::Add(req) => Reply::Add(RT.with(|rt| rt.block_on(self.api.add_appointment(Request::new(req)))).map(|r| r.into_inner())),
+            Call::Get(req) => Reply::Get(RT.with(|rt| rt.block_on(self.api.get_appointment(Request::new(req)))).map(|r| r.into_inner())),
+            Call::GetSub(req) => Reply::GetSub(RT.with(|rt| rt.block_on(self.api.get_subscription_info(Request::new(req)))).map(|r| r.into_inner())),
+            Call::Connect(block, height) => {
+                let txdata: Vec<(usize, &Transaction)> = block.txdata.iter().enumerate().collect();
+                for w in &self.order {
+                    match w {
+                        0 => self.gatekeeper.filtered_block_connected(&block.header, &txdata, height),
+                        1 => self.watcher.filtered_block_connected(&block.header, &txdata, height),
+                        _ => self.responder.filtered_block_connected(&block.header, &txdata, height),
+                    }
+                }
+                Reply::Block
+            }
+            Call::Disconnect(block, height) => {
+                for w in &self.order {
+                    match w {
+                        0 => self.gatekeeper.block_disconnected(&block.header, height),
+                        1 => self.watcher.block_disconnected(&block.header, height),
+                        _ => self.responder.block_disconnected(&block.header, height),
+                    }
+                }
+                Reply::Block
+            }
+            Call::Nop => Reply::Block,
+        }
     }
 }
